@@ -21,7 +21,7 @@ theorem get?_cons (e : κ × ν) (d : List (κ × ν)) (k : κ) :
 theorem get?_set (d : List (κ × ν)) (k k' : κ) (v : ν) :
     get? (set d k v) k' = if k == k' then some v else get? d k' := by
   induction d with
-  | nil => simp [set, get?_cons, get?]
+  | nil => simp [set, get?]
   | cons e t ih =>
     unfold set
     cases h : e.1 == k
@@ -112,6 +112,7 @@ theorem mem_del {d : List (κ × ν)} {k : κ} {e : κ × ν} (h : e ∈ del d k
   rw [List.mem_filter] at h
   exact ⟨h.1, by simpa using h.2⟩
 
+omit [LawfulBEq κ] in
 theorem keys_set (d : List (κ × ν)) (k : κ) (v : ν) :
     (set d k v).map (·.1) = if has d k then d.map (·.1) else d.map (·.1) ++ [k] := by
   induction d with
@@ -153,6 +154,7 @@ theorem nodup_keys_del {d : List (κ × ν)} (k : κ) (h : (d.map (·.1)).Nodup)
   rw [keys_del]
   exact h.filter _
 
+omit [LawfulBEq κ] in
 theorem length_set_of_has {d : List (κ × ν)} {k : κ} (v : ν) (h : has d k = true) :
     (set d k v).length = d.length := by
   have := congrArg List.length (keys_set d k v)
@@ -358,7 +360,7 @@ theorem nodeDiffWith_true {n2 : Node} {index : Nat} :
         · exact hm
         · exact hall d hd hne
     · have hm : e ∉ n2 := by simpa using hc
-      simp only [hc, if_false] at h
+      simp only [hc] at h
       cases found with
       | true => simp at h
       | false =>
@@ -395,7 +397,7 @@ theorem nodeDiffNone_true {n1full n2 : Node} :
       · exact hm
       · exact hall d hd hne
     · have hm : e ∉ n2 := by simpa using hc
-      simp only [hc, if_false] at h
+      simp only [hc] at h
       cases hr : nodeDiffWith n1full e.2 n2 false with
       | mk r1 r2 =>
         rw [hr] at h
